@@ -144,6 +144,7 @@ func c03Build(c *mon.Ctx) {
 				c03Cases = append(c03Cases, c03Case{lint: li, base: b, instant: in.t, label: in.l, off: c03Offsets[(li+k)%len(c03Offsets)]})
 				if k == 0 {
 					c03Cases = append(c03Cases, c03Case{lint: li, base: b, instant: in.t, label: in.l, keep: true})
+					c03Cases = append(c03Cases, c03Case{lint: li, base: b, instant: in.t, label: in.l, off: GenTimeForm})
 				}
 			}
 			for _, ti := range tmplApplic[info.Name] {
@@ -254,7 +255,9 @@ func init() {
 				if st := s[info.Name].Status; st != int(lint.NA) && st != int(lint.Fatal) {
 					c.R.Distinct("boundary_judged", info.Name+"@"+cs.label)
 					enc := "Z"
-					if cs.off != 0 {
+					if cs.off == GenTimeForm {
+						enc = "generalizedtime"
+					} else if cs.off != 0 {
 						enc = "offset"
 					}
 					c.R.Distinct("boundary_judged_"+enc, info.Name+"@"+cs.label)
@@ -333,6 +336,7 @@ func init() {
 			ev.Coverage["boundary_pairs_possible"] = wantPairs
 			ev.Coverage["boundary_pairs_judged_Z"] = r.SetSize("boundary_judged_Z")
 			ev.Coverage["boundary_pairs_judged_offset"] = r.SetSize("boundary_judged_offset")
+			ev.Coverage["boundary_pairs_judged_generalizedtime"] = r.SetSize("boundary_judged_generalizedtime")
 			ev.Coverage["lints_boundary_never_judged"] = never
 			ev.Coverage["lints_boundary_partially_judged"] = partial
 			ev.Coverage["infeasible_redatings"] = r.SetKeys("infeasible")
